@@ -1117,7 +1117,9 @@ class MemoryCache:
         big_mem = MemoryCache._pd_mem_usage(big)
         m = (big_mem - small_mem) / (len(big) - len(small))
         b = big_mem - m * len(big)
-        return int(m * len(obj) + b)
+        # The object holds at least the sampled rows: never extrapolate below them (the slope is
+        # negative when the smaller split happens to contain the heaviest rows)
+        return max(int(m * len(obj) + b), big_mem)
 
     @staticmethod
     def _estimate_object_size(obj: object) -> int:
